@@ -88,7 +88,7 @@ Lemma raw_read_none s cs lk m w : is_breakz (hd0 cs) = true ->
 Proof. intros H. unfold raw_read. destruct cs as [|c r]; cbn; [reflexivity|]. cbn in H. rewrite H. reflexivity. Qed.
 
 (* the mark after reading a text (LF line breaks) *)
-Ltac mstep tac := (eapply bind_ok_eq; [tac | cbv beta iota]).
+Ltac mstep tac := (eapply bind_ok_eq; [tac | cbv beta match]).
 
 Fixpoint mark_after (m : marker) (t : list chr) : marker :=
   match t with
@@ -476,3 +476,588 @@ Proof.
       with (mark_after (nlm (adv (N.of_nat k0) m)) (blank_lines ks ++ sps k)).
     do 3 f_equal; lia.
 Qed.
+
+(* ========================================================================================== *)
+(* Part 4 (T4): scan_block_scalar, literal style                                                *)
+(* ========================================================================================== *)
+(* the content loop of scan_block_scalar, named *)
+Section Loop.
+Variables (F : nat) (literal : bool) (indent : N).
+Fixpoint bs_loop (f : nat) (acc : list chr) (lb tb : N) (leading_blank : bool) : MS (list chr * N * N) :=
+  match f with
+  | O => oof
+  | S f =>
+    k <- col ;; z <- next_is str_ops is_z ;;
+    if negb (k =? indent) || z then ret (acc, lb, tb) else
+    de <- (if indent =? 0 then look str_ops 4 ;;; next_is_document_end str_ops else ret false) ;;
+    if de then ret (acc, lb, tb) else
+    trailing_blank <- next_is str_ops is_blank ;;
+    let acc :=
+      if negb literal && negb (lb =? 0) && negb leading_blank && negb trailing_blank then
+        (if tb =? 0 then 32 :: acc else nls tb acc)
+      else nls tb (nls lb acc) in
+    acc <- scan_block_scalar_content_line str_ops F acc ;;
+    look str_ops 2 ;;;
+    z <- next_is str_ops is_z ;;
+    if z then ret (acc, 0, 0) else
+    skip_break str_ops ;;;
+    tb <- skip_block_scalar_indent str_ops F F indent 0 ;;
+    bs_loop f acc 1 tb trailing_blank
+  end.
+End Loop.
+
+(* a content line preceded by blank lines: (spaces of the blank lines, extra indentation, text) *)
+Definition chunk := (list nat * nat * list chr)%type.
+Definition chunk_ok (F n : nat) (c : chunk) : Prop :=
+  let '(ks, e, s) := c in
+  Forall (fun k => (k <= n)%nat) ks /\ nobreak s /\ hd0 s <> 32 /\ (e <> O \/ s <> []) /\
+  (* fuel *) Forall (fun k => (k < F)%nat) ks /\ (length ks < F)%nat /\ (n + e + length s < F)%nat.
+Definition chunk_text (n : nat) (c : chunk) : list chr :=
+  let '(ks, e, s) := c in blank_lines ks ++ sps (n + e) ++ s ++ [10].
+Definition chunk_lines (c : chunk) : list bline :=
+  let '(ks, e, s) := c in map Blank ks ++ [Text e s].
+
+(* what the loop has accumulated after the chunks (reversed); [lb] = 0 before the first content line, 1 after *)
+Fixpoint acc_chunks (acc : list chr) (lb : N) (cs : list chunk) : list chr :=
+  match cs with
+  | [] => acc
+  | (ks, e, s) :: r => acc_chunks (rev (sps e ++ s) ++ nls (N.of_nat (length ks)) (nls lb acc)) 1 r
+  end.
+
+Lemma nobreak_sps_app e s : nobreak s -> nobreak (sps e ++ s).
+Proof.
+  intros H. apply Forall_app. split; [|exact H].
+  apply Forall_forall. intros x Hx. apply repeat_spec in Hx. subst. reflexivity.
+Qed.
+
+Lemma hd0_app_ne (a b : list chr) : a <> [] -> hd0 (a ++ b) = hd0 a.
+Proof. destruct a; [congruence|reflexivity]. Qed.
+
+Lemma nobreak_hd0 (t : list chr) : nobreak t -> t <> [] -> is_breakz (hd0 t) = false.
+Proof. intros H Hne. destruct t as [|c t]; [congruence|]. inversion H; subst. assumption. Qed.
+
+Lemma breakz_parts c : is_breakz c = false -> is_z c = false /\ is_break c = false.
+Proof. unfold is_breakz. intros H. apply orb_false_iff in H. tauto. Qed.
+
+(* one round of the loop at the start of a content line [txt] that is followed by a line feed *)
+Lemma bs_loop_round : forall (txt R : list chr) F n f acc lb tb lbk s lk m w,
+  nobreak txt -> txt <> [] -> n <> O -> m_col m = N.of_nat n -> (length txt < F)%nat ->
+  bs_loop F true (N.of_nat n) (S f) acc lb tb lbk (mv s (txt ++ 10 :: R) lk m w)
+  = (tb' <- skip_block_scalar_indent str_ops F F (N.of_nat n) 0 ;;
+     bs_loop F true (N.of_nat n) f (rev txt ++ nls tb (nls lb acc)) 1 tb' (is_blank (hd0 txt)))
+      (mv s R (Nat.max lk 2) (nlm (mark_after m txt)) true).
+Proof.
+  intros txt R F n f acc lb tb lbk s lk m w Hnb Hne Hn Hcol HF.
+  cbn [bs_loop].
+  mstep ltac:(apply col_mv). mstep ltac:(apply next_is_mv).
+  rewrite Hcol, N.eqb_refl. rewrite (hd0_app_ne txt) by exact Hne.
+  destruct (breakz_parts _ (nobreak_hd0 _ Hnb Hne)) as [Hz Hb]. rewrite Hz. cbn [negb orb].
+  destruct (N.eqb_spec (N.of_nat n) 0) as [E|_]; [lia|].
+  mstep ltac:(reflexivity). mstep ltac:(apply next_is_mv). rewrite (hd0_app_ne txt) by exact Hne.
+  cbn [negb andb].
+  mstep ltac:(apply content_line_spec; [exact Hnb|reflexivity|exact HF]).
+  mstep ltac:(apply look_mv). mstep ltac:(apply next_is_mv). hd0c. change (is_z 10) with false. cbv iota.
+  mstep ltac:(apply skip_break_lf). reflexivity.
+Qed.
+
+Lemma sps_add a b : sps (a + b) = sps a ++ sps b.
+Proof. unfold sps. apply repeat_app. Qed.
+
+Lemma mark_after_chunk n ks e s m :
+  mark_after m (chunk_text n (ks, e, s)) = nlm (mark_after (mark_after m (blank_lines ks ++ sps n)) (sps e ++ s)).
+Proof.
+  cbn [chunk_text]. rewrite sps_add.
+  replace (blank_lines ks ++ (sps n ++ sps e) ++ s ++ [10]) with ((blank_lines ks ++ sps n) ++ (sps e ++ s) ++ [10])
+    by (rewrite <- !app_assoc; reflexivity).
+  rewrite !mark_after_app. reflexivity.
+Qed.
+
+(* the loop from the start of a line (after a line break) through the remaining chunks, the trailing blank lines
+   and the indentation of the less indented line that follows *)
+Lemma bs_loop_chunks : forall (chunks : list chunk) (tks : list nat) (j : nat) (r' : list chr) F n f acc lbk s lk m,
+  n <> O -> Forall (chunk_ok F n) chunks ->
+  Forall (fun k => (k <= n)%nat) tks -> Forall (fun k => (k < F)%nat) tks -> (length tks < F)%nat ->
+  (j < n)%nat -> (j < F)%nat -> hd0 r' <> 32 -> is_break (hd0 r') = false ->
+  m_col m = 0 -> (length chunks < f)%nat ->
+  exists lk', (lk <= lk')%nat /\ lk' <> O /\
+  (tb <- skip_block_scalar_indent str_ops F F (N.of_nat n) 0 ;; bs_loop F true (N.of_nat n) f acc 1 tb lbk)
+    (mv s (flat_map (chunk_text n) chunks ++ blank_lines tks ++ sps j ++ r') lk m true)
+  = Ok ((acc_chunks acc 1 chunks, 1, N.of_nat (length tks)),
+        mv s r' lk' (mark_after m (flat_map (chunk_text n) chunks ++ blank_lines tks ++ sps j)) true).
+Proof.
+  induction chunks as [|[[ks e] txt] chunks IH];
+    intros tks j r' F n f acc lbk s lk m Hn Hch Htks HtksF HtksL Hj HjF Hr Hrb Hcol Hf.
+  - cbn [flat_map app acc_chunks].
+    destruct (skip_block_scalar_indent_spec tks j r' F F (N.of_nat n) 0 s lk m) as [lk' [Hle [Hne Hs]]]; auto.
+    { apply Forall_impl with (2 := Htks). intros k Hk. lia. }
+    exists lk'. split; [exact Hle|]. split; [exact Hne|].
+    mstep ltac:(exact Hs). rewrite Nat2N.id.
+    replace (Nat.min j n) with j by lia. rewrite Nat.sub_diag. change (sps 0 ++ r') with r'.
+    destruct f as [|f]; [cbn in Hf; lia|]. cbn [bs_loop].
+    mstep ltac:(apply col_mv). mstep ltac:(apply next_is_mv).
+    rewrite col_after_blank_lines by exact Hcol.
+    destruct (N.eqb_spec (N.of_nat j) (N.of_nat n)) as [E|_]; [lia|]. cbn [negb orb]. rewrite N.add_0_l. reflexivity.
+  - inversion Hch as [|? ? Hc Hch']; subst. destruct Hc as [Hks [Hnb [Hhd [Hne [HksF [HksL Hlen]]]]]].
+    cbn [flat_map]. fold (flat_map (chunk_text n) chunks).
+    set (REST := flat_map (chunk_text n) chunks ++ blank_lines tks ++ sps j ++ r').
+    assert (Etxt : (chunk_text n (ks, e, txt) ++ flat_map (chunk_text n) chunks) ++ blank_lines tks ++ sps j ++ r'
+                   = blank_lines ks ++ sps (n + e) ++ (txt ++ 10 :: REST)).
+    { cbn [chunk_text]. subst REST. rewrite <- !app_assoc. reflexivity. }
+    rewrite Etxt.
+    assert (Hhd' : hd0 (txt ++ 10 :: REST) <> 32).
+    { destruct txt as [|c t]; [intro H; change (10 = 32) in H; discriminate|exact Hhd]. }
+    assert (Hlast : N.of_nat n < N.of_nat (n + e) \/ is_break (hd0 (txt ++ 10 :: REST)) = false).
+    { destruct Hne as [He|Hs]; [left; lia|right].
+      rewrite hd0_app_ne by exact Hs. exact (proj2 (breakz_parts _ (nobreak_hd0 _ Hnb Hs))). }
+    destruct (skip_block_scalar_indent_spec ks (n + e) (txt ++ 10 :: REST) F F (N.of_nat n) 0 s lk m)
+      as [lk1 [Hle1 [Hne1 Hs]]]; auto.
+    { apply Forall_impl with (2 := Hks). intros k Hk. lia. }
+    { constructor; [lia|exact HksF]. }
+    rewrite Nat2N.id in Hs. replace (Nat.min (n + e) n) with n in Hs by lia.
+    replace (n + e - n)%nat with e in Hs by lia.
+    destruct f as [|f]; [cbn in Hf; lia|].
+    set (m1 := mark_after m (blank_lines ks ++ sps n)) in *.
+    assert (Hcol1 : m_col m1 = N.of_nat n) by (apply col_after_blank_lines; exact Hcol).
+    assert (Hne' : sps e ++ txt <> []).
+    { destruct Hne as [He|Hs']; [destruct e; [congruence|discriminate]|destruct e; [exact Hs'|discriminate]]. }
+    destruct (IH tks j r' F n f (rev (sps e ++ txt) ++ nls (N.of_nat (length ks)) (nls 1 acc))
+                 (is_blank (hd0 (sps e ++ txt))) s (Nat.max lk1 2) (nlm (mark_after m1 (sps e ++ txt))))
+      as [lk' [Hle [Hne2 Hrec]]]; auto.
+    { cbn [length] in Hf. lia. }
+    exists lk'. split; [lia|]. split; [exact Hne2|].
+    mstep ltac:(exact Hs). rewrite N.add_0_l.
+    replace (sps e ++ txt ++ 10 :: REST) with ((sps e ++ txt) ++ 10 :: REST) by (rewrite <- app_assoc; reflexivity).
+    rewrite bs_loop_round; auto; [|apply nobreak_sps_app; exact Hnb|rewrite app_length; unfold sps; rewrite repeat_length; lia].
+    subst REST. rewrite Hrec. cbn [acc_chunks].
+    rewrite (mark_after_app m (chunk_text n (ks, e, txt) ++ flat_map (chunk_text n) chunks)).
+    rewrite (mark_after_app m (chunk_text n (ks, e, txt))), mark_after_chunk. fold m1.
+    rewrite <- mark_after_app. reflexivity.
+Qed.
+
+(* ------------------------------------------------------------------------------------------ *)
+(* the specification side: what the chunks denote                                              *)
+(* ------------------------------------------------------------------------------------------ *)
+Lemma body_blanks literal prev k ks r :
+  body literal prev k (map Blank ks ++ r) = body literal prev (k + length ks) r.
+Proof.
+  revert k; induction ks as [|k0 ks IH]; intros k; cbn [map app body length].
+  - rewrite Nat.add_0_r. reflexivity.
+  - rewrite IH. f_equal. lia.
+Qed.
+
+Lemma lfs_add a b : lfs a ++ lfs b = lfs (a + b).
+Proof. unfold lfs. symmetry. apply repeat_app. Qed.
+
+Lemma acc_chunks_body : forall (chunks : list chunk) tks acc lb prev,
+  (lb = 0 /\ prev = None) \/ (lb = 1 /\ exists b, prev = Some b) ->
+  rev (acc_chunks acc lb chunks) = rev acc ++ body true prev 0 (flat_map chunk_lines chunks ++ map Blank tks).
+Proof.
+  induction chunks as [|[[ks e] s] chunks IH]; intros tks acc lb prev Hlb.
+  - cbn [acc_chunks flat_map app]. rewrite <- (app_nil_r (map Blank tks)), body_blanks. cbn [body]. rewrite app_nil_r. reflexivity.
+  - cbn [acc_chunks flat_map chunk_lines]. rewrite <- !app_assoc. rewrite body_blanks. cbn [app body Nat.add].
+    rewrite (IH tks _ 1 (Some (spaced e s))) by (right; split; [reflexivity|eexists; reflexivity]).
+    rewrite rev_app_distr, rev_involutive, nls_of_nat, rev_nls, <- !app_assoc. f_equal.
+    unfold line_text. change (spaces e) with (sps e). rewrite <- !app_assoc.
+    destruct Hlb as [[-> ->]|[-> [b ->]]]; cbn [sep negb andb N.to_nat].
+    + reflexivity.
+    + change (Pos.to_nat 1) with 1%nat. rewrite app_assoc, lfs_add. reflexivity.
+Qed.
+
+Lemma leading_blanks_map ks r : leading_blanks (map Blank ks ++ r) = (length ks + leading_blanks r)%nat.
+Proof. induction ks as [|k ks IH]; [reflexivity|]. cbn [map app leading_blanks length]. rewrite IH. reflexivity. Qed.
+
+Lemma chunks_last : forall (chunks : list chunk), chunks <> [] ->
+  exists Y e s, flat_map chunk_lines chunks = Y ++ [Text e s].
+Proof.
+  intros chunks Hne. destruct (exists_last Hne) as [front [[[ks e] s] ->]].
+  rewrite flat_map_app. cbn [flat_map chunk_lines]. rewrite app_nil_r.
+  exists (flat_map chunk_lines front ++ map Blank ks), e, s. rewrite app_assoc. reflexivity.
+Qed.
+
+Lemma chunks_trailing chunks tks : chunks <> [] ->
+  trailing_blanks (flat_map chunk_lines chunks ++ map Blank tks) = length tks /\
+  has_text (flat_map chunk_lines chunks ++ map Blank tks) = true.
+Proof.
+  intros Hne. destruct (chunks_last chunks Hne) as [Y [e [s E]]]. rewrite E. split.
+  - unfold trailing_blanks. rewrite rev_app_distr, <- map_rev, leading_blanks_map, rev_app_distr.
+    cbn [rev app leading_blanks]. rewrite rev_length. lia.
+  - unfold has_text. rewrite !existsb_app. cbn [existsb is_text]. rewrite !orb_true_r. reflexivity.
+Qed.
+
+Theorem chunks_value c chunks tks acc : chunks <> [] ->
+  rev (match to_model c with Keep => nls (N.of_nat (length tks)) | _ => fun a => a end
+         (match to_model c with Strip => acc_chunks acc 0 chunks | _ => nls 1 (acc_chunks acc 0 chunks) end))
+  = rev acc ++ block_value true c (flat_map chunk_lines chunks ++ map Blank tks).
+Proof.
+  intros Hne. rewrite chomp_tail. unfold block_value.
+  destruct (chunks_trailing chunks tks Hne) as [-> ->].
+  rewrite (acc_chunks_body chunks tks acc 0 None) by (left; split; reflexivity).
+  rewrite <- app_assoc. reflexivity.
+Qed.
+
+(* the rendering of the lines, chunk by chunk *)
+Lemma flat_map_shift {A} (g : A -> list N) ls fin :
+  flat_map (fun l => LF :: g l) ls ++ LF :: fin = LF :: flat_map (fun l => g l ++ [LF]) ls ++ fin.
+Proof.
+  induction ls as [|l ls IH]; [reflexivity|]. cbn [flat_map app]. rewrite <- !app_assoc. cbn [app]. rewrite IH. reflexivity.
+Qed.
+
+Lemma render_blanks n ks : flat_map (fun l => render_line n l ++ [LF]) (map Blank ks) = blank_lines ks.
+Proof. induction ks as [|k ks IH]; [reflexivity|]. cbn [map flat_map blank_lines]. rewrite IH. reflexivity. Qed.
+
+Lemma render_chunks n chunks tks :
+  flat_map (fun l => render_line n l ++ [LF]) (flat_map chunk_lines chunks ++ map Blank tks)
+  = flat_map (chunk_text n) chunks ++ blank_lines tks.
+Proof.
+  rewrite flat_map_app, render_blanks. f_equal.
+  induction chunks as [|[[ks e] s] chunks IH]; [reflexivity|].
+  cbn [flat_map chunk_lines chunk_text]. rewrite flat_map_app, flat_map_app, render_blanks, IH.
+  cbn [flat_map render_line]. rewrite <- !app_assoc. reflexivity.
+Qed.
+
+(* ------------------------------------------------------------------------------------------ *)
+(* the header                                                                                  *)
+(* ------------------------------------------------------------------------------------------ *)
+Ltac evalb :=
+  repeat match goal with
+         | |- context [N.eqb (Npos ?a) (Npos ?b)] =>
+             let v := eval vm_compute in (N.eqb (Npos a) (Npos b)) in change (N.eqb (Npos a) (Npos b)) with v
+         | |- context [is_digit (Npos ?a)] =>
+             let v := eval vm_compute in (is_digit (Npos a)) in change (is_digit (Npos a)) with v
+         end;
+  cbn [orb andb negb].
+
+(* the indicator part of scan_block_scalar, named ([c] = the character after '|' / '>') *)
+Definition bs_hd (c : chr) (start : marker) : MS (chomping * N) :=
+  let chomp_of c := if c =? 43 then Keep else Strip in
+  if (c =? 43) || (c =? 45) then
+    skip_non_blank str_ops ;;; look str_ops 1 ;;; d <- peek str_ops ;;
+    if is_digit d then
+      (if d =? 48 then fail 80 start else skip_non_blank str_ops ;;; ret (chomp_of c, d - 48))
+    else ret (chomp_of c, 0)
+  else if is_digit c then
+    (if c =? 48 then fail 80 start else
+     skip_non_blank str_ops ;;; look str_ops 1 ;;; d <- peek str_ops ;;
+     if (d =? 43) || (d =? 45) then skip_non_blank str_ops ;;; ret (chomp_of d, c - 48)
+     else ret (Clip, c - 48))
+  else ret (Clip, 0).
+
+Definition hdr_chars (c : chomp) (explicit : option nat) (digit_first : bool) : list chr :=
+  let ch := match c with CStrip => [45] | CClip => [] | CKeep => [43] end in
+  let d := match explicit with Some m => [48 + N.of_nat m] | None => [] end in
+  if digit_first then d ++ ch else ch ++ d.
+
+Lemma header_hdr_chars c explicit digit_first : header true c explicit digit_first = 124 :: hdr_chars c explicit digit_first.
+Proof. reflexivity. Qed.
+
+Definition inc_of (explicit : option nat) : N := match explicit with Some d => N.of_nat d | None => 0 end.
+
+Lemma digit_facts d : (1 <= d <= 9)%nat ->
+  let D := 48 + N.of_nat d in
+  is_digit D = true /\ (D =? 48) = false /\ (D =? 43) = false /\ (D =? 45) = false /\ D - 48 = N.of_nat d /\ (D =? 10) = false.
+Proof.
+  intros Hd D. unfold is_digit. repeat split.
+  - apply andb_true_iff. split; apply N.leb_le; subst D; lia.
+  - apply N.eqb_neq. subst D; lia.
+  - apply N.eqb_neq. subst D; lia.
+  - apply N.eqb_neq. subst D; lia.
+  - subst D; lia.
+  - apply N.eqb_neq. subst D; lia.
+Qed.
+
+Lemma bs_hd_spec : forall c explicit digit_first (rest : list chr) s lk m w start,
+  hd0 rest = 10 ->
+  match explicit with Some d => (1 <= d <= 9)%nat | None => True end ->
+  exists lk' w', (lk <= lk')%nat /\
+  bs_hd (hd0 (hdr_chars c explicit digit_first ++ rest)) start (mv s (hdr_chars c explicit digit_first ++ rest) lk m w)
+  = Ok ((to_model c, inc_of explicit), mv s rest lk' (mark_after m (hdr_chars c explicit digit_first)) w').
+Proof.
+  intros c explicit digit_first rest s lk m w start Hr Hd.
+  destruct explicit as [d|].
+  - destruct (digit_facts d Hd) as [D1 [D2 [D3 [D4 [D5 D6]]]]]. cbn zeta in *.
+    destruct c, digit_first; cbn [hdr_chars app to_model inc_of]; set (D := 48 + N.of_nat d) in *; unfold bs_hd; hd0c;
+      cbn [mark_after]; rewrite ?D1, ?D2, ?D3, ?D4, ?D6; evalb;
+      (eexists; eexists; split; [|
+        repeat (first [ mstep ltac:(apply skip_non_blank_mv); cbn [tl]
+                      | mstep ltac:(apply look_mv)
+                      | mstep ltac:(apply peek_mv); try hd0c ];
+                rewrite ?Hr, ?D1, ?D2, ?D3, ?D4, ?D5; evalb);
+        rewrite ?D5; reflexivity]; lia).
+  - assert (Hdig : is_digit 10 = false) by reflexivity.
+    destruct c, digit_first; cbn [hdr_chars app to_model inc_of]; unfold bs_hd; try hd0c; rewrite ?Hr, ?Hdig;
+      cbn [mark_after]; evalb;
+      (eexists; eexists; split; [|
+        repeat (first [ mstep ltac:(apply skip_non_blank_mv); cbn [tl]
+                      | mstep ltac:(apply look_mv)
+                      | mstep ltac:(apply peek_mv); try hd0c ];
+                rewrite ?Hr, ?Hdig; evalb);
+        reflexivity]; lia).
+Qed.
+
+(* ------------------------------------------------------------------------------------------ *)
+(* the whole function                                                                          *)
+(* ------------------------------------------------------------------------------------------ *)
+Lemma unroll_mv s cs lk m w pz inds : unroll_nb (sc_indents s) (sc_indent s) = (pz, inds) ->
+  unroll_non_block_indents (mv s cs lk m w) = Ok (tt, mv (set_indent pz inds s) cs lk m w).
+Proof. intros H. unfold unroll_non_block_indents, modify. cbn [sc_indents sc_indent mv set_lws set_flags upd]. rewrite H. reflexivity. Qed.
+
+Lemma skip_ws_to_eol_lf F s (R : list chr) lk m w :
+  skip_ws_to_eol str_ops (S F) SkipYes (mv s (10 :: R) lk m w) = Ok ((false, false), mv s (10 :: R) (Nat.max lk 1) m w).
+Proof.
+  unfold skip_ws_to_eol. cbn [in_skip_ws_to_eol].
+  mstep ltac:(mstep ltac:(apply look_ch_mv); hd0c; evalb; reflexivity).
+  cbn [fst snd]. mstep ltac:(apply adv_mark_mv). rewrite adv_0. reflexivity.
+Qed.
+
+Lemma get_mv s cs lk m w : get (mv s cs lk m w) = Ok (mv s cs lk m w, mv s cs lk m w).
+Proof. reflexivity. Qed.
+
+Lemma hd0_chunks n (chunks : list chunk) X : chunks <> [] -> n <> O ->
+  hd0 (flat_map (chunk_text n) chunks ++ X) = 32 \/ hd0 (flat_map (chunk_text n) chunks ++ X) = 10.
+Proof.
+  intros Hne Hn. destruct chunks as [|[[ks e] s] chunks]; [congruence|].
+  cbn [flat_map chunk_text]. destruct ks as [|[|k0] ks].
+  - left. destruct n; [congruence|]. reflexivity.
+  - right. reflexivity.
+  - left. reflexivity.
+Qed.
+
+Definition yields (value r' : list chr) (o : outcome (token * sc strin)) : Prop :=
+  exists sp s', o = Ok ((sp, TScalar Literal value), s') /\ si_chars (sc_in s') = r'.
+
+Lemma bind_P {A B} (P : outcome (B * sc strin) -> Prop) (m : MS A) (f : A -> MS B) (s : sc strin) a s' :
+  m s = Ok (a, s') -> P (f a s') -> P (bind m f s).
+Proof. intros H1 H2. unfold bind. rewrite H1. exact H2. Qed.
+Ltac pstep tac := (eapply bind_P; [tac | cbv beta match]).
+
+Theorem literal_block_scalar : forall (s : sc strin) F c (explicit : option nat) (digit_first : bool)
+    (ck : chunk) (chunks : list chunk) (tks : list nat) (j : nat) (r' : list chr) (n : nat) pz inds,
+  let lines := flat_map chunk_lines (ck :: chunks) ++ map Blank tks in
+  si_chars (sc_in s) = render_block n true c explicit digit_first [] lines (EofRest (sps j ++ r')) ->
+  unroll_nb (sc_indents s) (sc_indent s) = (pz, inds) ->
+  n <> O -> Forall (chunk_ok F n) (ck :: chunks) ->
+  Forall (fun k => (k <= n)%nat) tks -> Forall (fun k => (k < F)%nat) tks -> (length tks < F)%nat ->
+  (j < n)%nat -> hd0 r' <> 32 -> is_break (hd0 r') = false -> (S (length chunks) < F)%nat ->
+  match explicit with
+  | Some d => (1 <= d <= 9)%nat /\ N.of_nat n = (if (0 <=? pz)%Z then Z.to_N (pz + Z.of_N (N.of_nat d)) else N.of_nat d)
+  | None => Z.to_N (pz + 1) <= N.of_nat n /\ (let '(ks, e, txt) := ck in e = O /\ txt <> [])
+  end ->
+  yields (block_value true c lines) r' (scan_block_scalar str_ops F true s).
+Proof.
+  intros s F c explicit digit_first ck chunks tks j r' n pz inds lines Hchars Hun Hn Hch Htks HtksF HtksL Hj Hr Hrb HchL Hind.
+  rewrite <- (mv_self s). rewrite Hchars. clear Hchars.
+  unfold render_block. rewrite header_hdr_chars. cbn [app].
+  unfold lines at 2. rewrite flat_map_shift, render_chunks. rewrite <- app_assoc.
+  set (BODY := flat_map (chunk_text n) (ck :: chunks) ++ blank_lines tks ++ sps j ++ r').
+  set (lk0 := si_look (sc_in s)). set (m0 := sc_mark s). set (w0 := sc_lws s).
+  assert (HF : exists F', F = S F').
+  { pose proof (Forall_inv Hch) as Hc. destruct ck as [[ks e] txt]. destruct Hc as [_ [_ [_ [_ [_ [_ Hl]]]]]].
+    destruct F; [lia|eexists; reflexivity]. }
+  destruct HF as [F' HF].
+  unfold scan_block_scalar.
+  pstep ltac:(apply mark_mv). pstep ltac:(apply skip_non_blank_mv). cbn [tl].
+  pstep ltac:(apply unroll_mv; exact Hun).
+  pstep ltac:(apply look_ch_mv).
+  set (s1 := set_indent pz inds s).
+  assert (Hs1 : forall cs lk m w, sc_indent (mv s1 cs lk m w) = pz) by reflexivity.
+  assert (HB : hd0 (10 :: BODY) = 10) by reflexivity.
+  assert (Hd : match explicit with Some d => (1 <= d <= 9)%nat | None => True end) by (destruct explicit; tauto).
+  destruct (bs_hd_spec c explicit digit_first (10 :: BODY) s1 (Nat.max lk0 1) (adv 1 m0) false m0 HB Hd) as [lk1 [w1 [Hle1 Hhd]]].
+  match goal with |- yields _ _ (bind ?blk ?k ?st) => change (yields (block_value true c lines) r' (bind (bs_hd (hd0 (hdr_chars c explicit digit_first ++ 10 :: BODY)) m0) k st)) end.
+  pstep ltac:(exact Hhd).
+  pstep ltac:(rewrite HF; apply skip_ws_to_eol_lf). pstep ltac:(apply look_mv). pstep ltac:(apply peek_mv). hd0c.
+  change (is_breakz 10) with true. change (is_break 10) with true. cbv match. cbn [negb].
+  pstep ltac:(mstep ltac:(apply look_mv); mstep ltac:(apply skip_break_lf); reflexivity).
+  pstep ltac:(apply look_ch_mv).
+  assert (Htab : (hd0 BODY =? 9) = false).
+  { destruct (hd0_chunks n (ck :: chunks) (blank_lines tks ++ sps j ++ r')) as [E|E]; [discriminate|exact Hn| |];
+      fold BODY in E; rewrite E; reflexivity. }
+  rewrite Htab. pstep ltac:(apply get_mv). rewrite !Hs1.
+  destruct ck as [[ks1 e1] txt1].
+  pose proof (Forall_inv Hch) as Hc1. pose proof (Forall_inv_tail Hch) as Hch'. destruct Hc1 as [Hks1 [Hnb1 [Hhd1 [Hne1 [Hks1F [Hks1L Hlen1]]]]]].
+  set (REST := flat_map (chunk_text n) chunks ++ blank_lines tks ++ sps j ++ r').
+  assert (EBODY : BODY = blank_lines ks1 ++ sps (n + e1) ++ (txt1 ++ 10 :: REST)).
+  { subst BODY REST. cbn [flat_map chunk_text]. rewrite <- !app_assoc. reflexivity. }
+  rewrite EBODY.
+  set (mh := nlm (mark_after (adv 1 m0) (hdr_chars c explicit digit_first))).
+  assert (Hmh : m_col mh = 0) by reflexivity.
+  assert (Hhd' : hd0 (txt1 ++ 10 :: REST) <> 32).
+  { destruct txt1 as [|c0 t]; [intro H; change (10 = 32) in H; discriminate|exact Hhd1]. }
+  match goal with |- yields _ _ (bind ?ib ?k ?st) =>
+    assert (Hib : exists lk2, lk2 <> O /\
+              ib st = Ok ((N.of_nat n, N.of_nat (length ks1)),
+                          mv s1 ((sps e1 ++ txt1) ++ 10 :: REST) lk2 (mark_after mh (blank_lines ks1 ++ sps n)) true))
+  end.
+  { destruct explicit as [d|]; cbn [inc_of].
+    - destruct Hind as [Hd9 Hind]. rewrite <- Hind.
+      destruct (N.ltb_spec 0 (N.of_nat d)) as [_|Hbad]; [|lia].
+      destruct (N.eqb_spec (N.of_nat n) 0) as [Hbad|_]; [lia|].
+      destruct (skip_block_scalar_indent_spec ks1 (n + e1) (txt1 ++ 10 :: REST) F F (N.of_nat n) 0 s1
+                  (Nat.max (Nat.max (Nat.max (Nat.max lk1 1) 1) 2) 1) mh) as [lk2 [Hle2 [Hne2 Hs]]]; auto.
+      { apply Forall_impl with (2 := Hks1). intros k Hk. lia. }
+      { destruct Hne1 as [He|Hs]; [left; lia|right].
+        rewrite hd0_app_ne by exact Hs. exact (proj2 (breakz_parts _ (nobreak_hd0 _ Hnb1 Hs))). }
+      { constructor; [lia|exact Hks1F]. }
+      exists lk2. split; [exact Hne2|].
+      mstep ltac:(exact Hs). rewrite N.add_0_l, Nat2N.id.
+      replace (Nat.min (n + e1) n) with n by lia. replace (n + e1 - n)%nat with e1 by lia.
+      rewrite <- app_assoc. reflexivity.
+    - destruct Hind as [Hpz [He1 Htx1]]. subst e1. change (0 <? 0) with false. cbv match. change (0 =? 0) with true. cbv match.
+      rewrite Nat.add_0_r.
+      assert (Hnb' : is_break (hd0 (txt1 ++ 10 :: REST)) = false).
+      { rewrite hd0_app_ne by exact Htx1. exact (proj2 (breakz_parts _ (nobreak_hd0 _ Hnb1 Htx1))). }
+      destruct (skip_first_line_indent_spec ks1 n (txt1 ++ 10 :: REST) F F 0 0 s1
+                  (Nat.max (Nat.max (Nat.max (Nat.max lk1 1) 1) 2) 1) mh) as [lk2 [Hle2 [Hne2 Hs]]]; auto.
+      { constructor; [lia|exact Hks1F]. }
+      exists lk2. split; [exact Hne2|].
+      mstep ltac:(exact Hs). cbn [fst snd]. rewrite N.add_0_l.
+      assert (Hmax : maxl ks1 n = n).
+      { clear - Hks1. induction Hks1 as [|k ks Hk _ IH]; [reflexivity|]. cbn [maxl fold_right]. fold (maxl ks n). lia. }
+      rewrite Hmax.
+      replace (if (0 <? pz)%Z then N.max (N.max (N.max 0 (N.of_nat n)) (Z.to_N (pz + 1))) 1
+               else N.max (N.max 0 (N.of_nat n)) (Z.to_N (pz + 1))) with (N.of_nat n)
+        by (destruct (0 <? pz)%Z; lia).
+      reflexivity. }
+  destruct Hib as [lk2 [Hne2 Hib]].
+  pstep ltac:(exact Hib).
+  assert (Hmk : forall cs lk m w, sc_mark (mv s1 cs lk m w) = m) by reflexivity.
+  set (m2 := mark_after mh (blank_lines ks1 ++ sps n)).
+  assert (Hcol2 : m_col m2 = N.of_nat n) by (apply col_after_blank_lines; exact Hmh).
+  assert (Hne' : sps e1 ++ txt1 <> []).
+  { destruct Hne1 as [He|Hs']; [destruct e1; [congruence|discriminate]|destruct e1; [exact Hs'|discriminate]]. }
+  assert (Hnbt : nobreak (sps e1 ++ txt1)) by (apply nobreak_sps_app; exact Hnb1).
+  pstep ltac:(apply next_is_mv). rewrite (hd0_app_ne (sps e1 ++ txt1)) by exact Hne'.
+  rewrite (proj1 (breakz_parts _ (nobreak_hd0 _ Hnbt Hne'))).
+  pstep ltac:(apply get_mv). rewrite !Hmk, !Hs1, Hcol2, N.ltb_irrefl. cbn [andb].
+  pstep ltac:(reflexivity). pstep ltac:(apply get_mv). rewrite !Hmk.
+  match goal with |- yields _ _ (bind (?g F [] 0 ?tb false) ?k ?st) =>
+    change (yields (block_value true c lines) r' (bind (bs_loop F true (N.of_nat n) F [] 0 tb false) k st)) end.
+  replace (bs_loop F true (N.of_nat n) F) with (bs_loop F true (N.of_nat n) (S F')) by (rewrite HF; reflexivity).
+  assert (Hlen : (length (sps e1 ++ txt1) < F)%nat) by (rewrite app_length; unfold sps; rewrite repeat_length; lia).
+  destruct (bs_loop_chunks chunks tks j r' F n F' (rev (sps e1 ++ txt1) ++ nls (N.of_nat (length ks1)) (nls 0 []))
+              (is_blank (hd0 (sps e1 ++ txt1))) s1 (Nat.max lk2 2) (nlm (mark_after m2 (sps e1 ++ txt1))))
+    as [lk3 [Hle3 [Hne3 Hloop]]]; auto; try lia.
+  pstep ltac:(rewrite bs_loop_round; [exact Hloop|exact Hnbt|exact Hne'|exact Hn|exact Hcol2|exact Hlen]).
+  pstep ltac:(apply next_is_mv). pstep ltac:(apply col_mv). pstep ltac:(apply mark_mv).
+  assert (Hcolend : forall m, m_col m = 0 ->
+            m_col (mark_after m (flat_map (chunk_text n) chunks ++ blank_lines tks ++ sps j)) = N.of_nat j).
+  { clear. induction chunks as [|[[ks e] txt] chunks IH]; intros m Hm.
+    - cbn [flat_map app]. apply col_after_blank_lines. exact Hm.
+    - cbn [flat_map]. rewrite <- app_assoc, mark_after_app, mark_after_chunk. apply IH. reflexivity. }
+  rewrite Hcolend by reflexivity.
+  destruct (N.leb_spec (N.max (N.of_nat n) 1) (N.of_nat j)) as [Hbad|_]; [lia|]. rewrite andb_false_r.
+  assert (Eval : block_value true c lines =
+                 rev (match to_model c with Keep => nls (N.of_nat (length tks)) | _ => fun a => a end
+                        (match to_model c with
+                         | Strip => acc_chunks [] 0 ((ks1, e1, txt1) :: chunks)
+                         | _ => nls 1 (acc_chunks [] 0 ((ks1, e1, txt1) :: chunks)) end))).
+  { rewrite chunks_value by discriminate. reflexivity. }
+  rewrite Eval. unfold yields. eexists. eexists. split.
+  - destruct c; reflexivity.
+  - reflexivity.
+Qed.
+
+(* ------------------------------------------------------------------------------------------ *)
+(* from line lists to chunks                                                                   *)
+(* ------------------------------------------------------------------------------------------ *)
+(* side conditions on one line, for content indentation n and fuel F *)
+Definition line_ok (F n : nat) (l : bline) : Prop :=
+  match l with
+  | Blank k => (k <= n)%nat /\ (k < F)%nat
+  | Text e s => nobreak s /\ hd0 s <> 32 /\ (e <> O \/ s <> []) /\ (n + e + length s < F)%nat
+  end.
+
+(* [ks]: the blank lines seen since the last content line, most recent first *)
+Fixpoint split_lines (ls : list bline) (ks : list nat) : list chunk * list nat :=
+  match ls with
+  | [] => ([], rev ks)
+  | Blank k :: r => split_lines r (k :: ks)
+  | Text e s :: r => let '(cs, t) := split_lines r [] in ((rev ks, e, s) :: cs, t)
+  end.
+
+Lemma split_lines_spec : forall ls ks cs t, split_lines ls ks = (cs, t) ->
+  map Blank (rev ks) ++ ls = flat_map chunk_lines cs ++ map Blank t.
+Proof.
+  induction ls as [|[e s|k] r IH]; intros ks cs t H; cbn [split_lines] in H.
+  - inversion H; subst. rewrite app_nil_r. reflexivity.
+  - destruct (split_lines r []) as [cs' t'] eqn:E. inversion H; subst.
+    cbn [flat_map chunk_lines]. rewrite <- !app_assoc. rewrite <- (IH [] cs' t E). cbn [rev map app]. reflexivity.
+  - rewrite <- (IH (k :: ks) cs t H). cbn [rev]. rewrite map_app, <- app_assoc. reflexivity.
+Qed.
+
+Lemma split_lines_ok F n : forall ls ks cs t, split_lines ls ks = (cs, t) ->
+  Forall (line_ok F n) ls -> Forall (fun k => (k <= n)%nat /\ (k < F)%nat) ks ->
+  (length ks + length ls < F)%nat ->
+  Forall (chunk_ok F n) cs /\ Forall (fun k => (k <= n)%nat) t /\ Forall (fun k => (k < F)%nat) t /\
+  (length t < F)%nat /\ (length cs <= length ls)%nat.
+Proof.
+  induction ls as [|[e s|k] r IH]; intros ks cs t H Hls Hks Hlen; cbn [split_lines] in H.
+  - inversion H; subst. split; [constructor|].
+    assert (Hr : Forall (fun k => (k <= n)%nat /\ (k < F)%nat) (rev ks)) by (apply Forall_rev; exact Hks).
+    split; [apply Forall_impl with (2 := Hr); tauto|]. split; [apply Forall_impl with (2 := Hr); tauto|].
+    rewrite rev_length. cbn [length] in *. split; lia.
+  - destruct (split_lines r []) as [cs' t'] eqn:E. inversion H; subst.
+    pose proof (Forall_inv Hls) as Hl. pose proof (Forall_inv_tail Hls) as Hr. cbn [line_ok] in Hl.
+    destruct Hl as [Hnb [Hhd [Hne Hlen']]].
+    destruct (IH [] cs' t E Hr) as [Hcs [Ht1 [Ht2 [Ht3 Ht4]]]]; [constructor|cbn [length] in *; lia|].
+    assert (Hrk : Forall (fun k => (k <= n)%nat /\ (k < F)%nat) (rev ks)) by (apply Forall_rev; exact Hks).
+    split; [|cbn [length] in *; repeat split; auto; lia].
+    constructor; [|exact Hcs]. cbn [chunk_ok]. rewrite rev_length.
+    split; [apply Forall_impl with (2 := Hrk); tauto|]. split; [exact Hnb|]. split; [exact Hhd|]. split; [exact Hne|].
+    split; [apply Forall_impl with (2 := Hrk); tauto|]. cbn [length] in Hlen. split; [lia|exact Hlen'].
+  - pose proof (Forall_inv Hls) as Hl. pose proof (Forall_inv_tail Hls) as Hr. cbn [line_ok] in Hl.
+    destruct (IH (k :: ks) cs t H Hr) as [Hcs [Ht1 [Ht2 [Ht3 Ht4]]]]; [constructor; assumption|cbn [length] in *; lia|].
+    cbn [length]. repeat split; auto.
+Qed.
+
+Lemma split_lines_text : forall ls ks, has_text ls = true -> fst (split_lines ls ks) <> [].
+Proof.
+  induction ls as [|[e s|k] r IH]; intros ks H; cbn [split_lines].
+  - discriminate.
+  - destruct (split_lines r []). discriminate.
+  - apply IH. exact H.
+Qed.
+
+(* the first content line *)
+Fixpoint first_text (ls : list bline) : option (nat * list N) :=
+  match ls with [] => None | Text e s :: _ => Some (e, s) | Blank _ :: r => first_text r end.
+
+Lemma split_lines_first : forall ls ks e s, first_text ls = Some (e, s) ->
+  exists ks' cs t, split_lines ls ks = ((ks', e, s) :: cs, t).
+Proof.
+  induction ls as [|[e0 s0|k] r IH]; intros ks e s H; cbn [first_text split_lines] in *.
+  - discriminate.
+  - inversion H; subst. destruct (split_lines r []) as [cs t]. eexists; eexists; eexists; reflexivity.
+  - apply IH. exact H.
+Qed.
+
+(* (T4) literal style, explicit or auto-detected indentation, any chomping: every list of content lines (of any extra
+   indentation, whitespace-only content lines included) and blank lines, with at least one content line, each line
+   terminated by a line feed, followed by a less indented line or the end of the input *)
+Theorem literal_block_scalar_lines : forall (s : sc strin) F c (explicit : option nat) (digit_first : bool)
+    (lines : list bline) (j : nat) (r' : list chr) (n : nat) pz inds,
+  si_chars (sc_in s) = render_block n true c explicit digit_first [] lines (EofRest (sps j ++ r')) ->
+  unroll_nb (sc_indents s) (sc_indent s) = (pz, inds) ->
+  n <> O -> Forall (line_ok F n) lines -> (S (length lines) < F)%nat -> has_text lines = true ->
+  (j < n)%nat -> hd0 r' <> 32 -> is_break (hd0 r') = false -> (r' = [] -> j = O) ->
+  match explicit with
+  | Some d => (1 <= d <= 9)%nat /\ N.of_nat n = (if (0 <=? pz)%Z then Z.to_N (pz + Z.of_N (N.of_nat d)) else N.of_nat d)
+  | None => Z.to_N (pz + 1) <= N.of_nat n /\ exists txt, first_text lines = Some (O, txt) /\ txt <> []
+  end ->
+  yields (block_value true c lines) r' (scan_block_scalar str_ops F true s).
+Proof.
+  intros s F c explicit digit_first lines j r' n pz inds Hchars Hun Hn Hls Hlen Htext Hj Hr Hrb _ Hind.
+  destruct (split_lines lines []) as [cs t] eqn:E.
+  pose proof (split_lines_spec lines [] cs t E) as Hsp. cbn [rev map app] in Hsp.
+  destruct (split_lines_ok F n lines [] cs t E Hls) as [Hcs [Ht1 [Ht2 [Ht3 Ht4]]]]; [constructor|cbn [length]; lia|].
+  pose proof (split_lines_text lines [] Htext) as Hne. rewrite E in Hne. cbn [fst] in Hne.
+  destruct cs as [|ck cs]; [congruence|].
+  assert (Hft0 := Hind). rewrite Hsp in Hchars |- *.
+  apply (literal_block_scalar s F c explicit digit_first ck cs t j r' n pz inds); auto.
+  - cbn [length] in Ht4. lia.
+  - destruct explicit as [d|]; [exact Hind|].
+    destruct Hind as [Hpz [txt [Hft Htx]]]. split; [exact Hpz|].
+    destruct (split_lines_first lines [] O txt Hft) as [ks' [cs' [t' E']]].
+    rewrite E in E'. inversion E'; subst. split; [reflexivity|exact Htx].
+Qed.
+
